@@ -171,7 +171,7 @@ impl Prop for C10 {
         ]
     }
     fn cases(tier: Tier) -> u64 {
-        tier.pick(100_000, 2_000_000)
+        tier.pick(100_000, 1_000_000)
     }
     fn strategy(_tier: Tier) -> BoxedStrategy<Case> {
         let wig = params()
